@@ -1793,6 +1793,7 @@ def renumber(op, dropped):
 # Minimal witnesses of repaired defects (each fails an oracle on the unchanged code)
 # ---------------------------------------------------------------------------
 CORPUS: list = [
+ {"id": "R-unusable-id", "univ": ["s:a", "s:b", "s:r", "s:u", "s:new"], "ops": [["new", False, {"fn": "name", "raise": [2], "unhashable": [3]}], ["add", 0, 0, 0, None, None, None], ["add", 0, 0, 3, None, None, None], ["add", 0, 0, 1, None, None, None], ["add", 0, 1, 3, {"u": [1]}, None, True], ["add", 0, 1, 0, None, None, None], ["add", 0, 3, 0, None, None, None], ["set_data", 0, 1, 3, None, True], ["set_data", 0, 1, 2, None, True], ["set_data", 0, 1, 4, None, True], ["add", 0, 0, 0, None, None, None], ["from_dict", 0, 6, [[4, "Y", []], [3, None, []]]], ["from_dict", 0, 6, [[4, "Y", []]]], ["remove", 0, 5, False, True], ["add", 0, 0, 2, None, None, None], ["add", 0, 0, 4, "Z", None, None]]},
  {"id": "R-meta-alias", "univ": ["s:a", "s:b", "s:c"], "ops": [["new", False, None], ["add", 0, 0, 0, None, None, None], ["add", 0, 0, 1, None, None, None], ["add", 0, 1, 2, None, None, None], ["meta", 0, 1, ["update", {"z": 1}, False]], ["meta", 0, 2, ["update", {"z": 1}, False]], ["meta", 0, 1, ["set", "k", 1]], ["meta", 0, 2, ["clear", "z"]], ["meta", 0, 3, ["update", {"z": 1}, True]], ["meta", 0, 3, ["set", "z", 5]], ["meta", 0, 1, ["update", {"q": 2}, False]], ["meta", 0, 2, ["update", {"z": 1}, True]]]},
  {"id": "D03b", "univ": ["s:a", "s:b", "s:c"], "ops": [["new", False, None], ["add", 0, 0, 0, None, None, None], ["add", 0, 1, 1, None, None, None], ["add", 0, 2, 0, None, None, None], ["add", 0, 0, 2, None, None, None], ["add", 0, 4, 0, None, None, None], ["remove", 0, 5, False, True]]},
  {"id": "R-meta", "univ": ["s:a"], "ops": [["new", False, None], ["add", 0, 0, 0, None, None, None], ["meta", 0, 1, ["set", "k", 1]], ["meta", 0, 1, ["set", "", 2]], ["meta", 0, 1, ["clear", ""]], ["meta", 0, 1, ["update", {}, True]], ["meta", 0, 1, ["update", {"z": 1}, False]], ["meta", 0, 1, ["set", "z", None]]]},
